@@ -45,6 +45,24 @@ def translate():
     args = [a.arg for a in be.args.args]
     if args != ['t', 'indices', 'sort'] or [t2.src(d) for d in be.args.defaults] != ['True']:
         raise TranslateError('build_entities signature: ' + repr(args))
+    got = [t2.src(x) for x in _body(be)]
+    want = ['if indices is None:\n    return (None, None)',
+            'indexing = np.hstack(tuple([t[ix] for ix in indices]))',
+            'sorted_indexing = Mesh._sort_entities(indexing)',
+            'sorted_indexing, ixa, ixb = np.unique(sorted_indexing, axis=1, return_index=True, return_inverse=True)',
+            'mapping = ixb.reshape((len(indices), t.shape[1]))',
+            'if sort:\n    return (np.ascontiguousarray(sorted_indexing), mapping)',
+            'return (np.ascontiguousarray(indexing[:, ixa]), mapping)']
+    if got != want:
+        raise TranslateError('Mesh.build_entities body: ' + repr([g for g, w in zip(got + [''] * 9, want + [''] * 9) if g != w][:2]))
+    se = t2.find_def(tree, '_sort_entities', 'Mesh')
+    got = [t2.src(x) for x in _body(se)]
+    want = ['out = np.sort(indexing, axis=0)', 'repeated = out[1:] == out[:-1]', 'cols = np.nonzero(repeated.any(axis=0))[0]',
+            'if len(cols) > 0:\n    rows = np.arange(out.shape[0])[:, None]\n    last = repeated[:, cols].argmax(axis=0) + 1\n'
+            '    out[:, cols] = out[np.where(rows <= last, np.maximum(rows - 1, 0), rows), cols]',
+            'return out']
+    if got != want:
+        raise TranslateError('Mesh._sort_entities body: ' + repr([g for g, w in zip(got + [''] * 9, want + [''] * 9) if g != w][:2]))
     f = t2.find_def(tree, '_init_facets', 'Mesh')
     _expect(t2.only(_body(f), '_init_facets body'),
             'self._facets, self._t2f = self.build_entities(self.t, self.elem.refdom.facets)', 'Mesh._init_facets')
@@ -320,6 +338,8 @@ def oracle_mesh(kind, m, manifold=True):
     three_d = kind in ('tet', 'hex', 'wedge')
 
     distinct_cells = all(len(set(t[:, e].tolist())) == t.shape[0] for e in range(nt))
+    if not distinct_cells:
+        return bad        # a repeated vertex inside a cell: not a mesh the property speaks about (correspondence still covers it)
     # an entity IS its vertex set (for cells with distinct vertices; padded slots such as the wedge's [0, 1, 2, 0] collapse)
     keyf = (lambda a: tuple(sorted(set(a)))) if distinct_cells else (lambda a: tuple(sorted(a)))
 
@@ -563,7 +583,7 @@ def _equivariance(ctx, rng, kind, m):
     def fs(mm, ids=None, mp=None):
         f = np.asarray(mm.facets)
         ids = range(f.shape[1]) if ids is None else ids
-        return {tuple(sorted((int(mp[v]) if mp is not None else int(v)) for v in f[:, j])) for j in ids}
+        return {tuple(sorted({(int(mp[v]) if mp is not None else int(v)) for v in f[:, j]})) for j in ids}      # vertex sets
     ok = (fs(m, mp=perm) == fs(m2) and fs(m, m.boundary_facets(), perm) == fs(m2, m2.boundary_facets())
           and sorted(perm[m.boundary_nodes()].tolist()) == m2.boundary_nodes().tolist()
           and sorted(perm[m.interior_nodes()].tolist()) == m2.interior_nodes().tolist())
@@ -574,7 +594,7 @@ def _equivariance(ctx, rng, kind, m):
         out = {}
         f = np.asarray(mm.facets)
         for j in range(f.shape[1]):
-            key = tuple(sorted((int(mp[v]) if mp is not None else int(v)) for v in f[:, j]))
+            key = tuple(sorted({(int(mp[v]) if mp is not None else int(v)) for v in f[:, j]}))
             out[key] = frozenset((int(mapc[c]) if mapc is not None else int(c)) for c in mm.f2t[:, j] if c != -1)
         return out
     ok = ok and nb(m, inv_c, perm) == nb(m2)
